@@ -26,6 +26,13 @@ open Locks
     source lost a lock, accesses a guarded field outside it, or leaves a lock held) -/
 theorem all_wellLocked : ∀ m ∈ Extracted.methods, wellLocked m.2 = true := by decide
 
+/-- **no mutex is held across a wait for another goroutine**: in the current source no store method and no crossbar function
+    performs a channel send or receive (outside a `select` with a `default`), a `WaitGroup.Wait` or a `Sleep` between taking and
+    releasing one of the mutexes of the table. This is what makes "a goroutine holding a lock finishes its critical section without
+    anybody's help" true — the premise under which a lock table says something about progress (a lock held across an unbuffered
+    hand-over to the hub dead-locks with the status scan as soon as the hub itself waits for the hub lock). -/
+theorem no_blocking_under_lock : Extracted.blockingUnderLock = [] := rfl
+
 /-- every guarded location named in the property is covered by the table -/
 theorem guarded_state_covered :
     ∀ loc ∈ ["CodeStore.store", "deny.AllowList", "deny.DenyList", "chanmap.ChildrenByParent", "chanmap.ParentByChild",
